@@ -34,10 +34,12 @@ theorem C04_tie_size_in_weekdays (p : Period) : p.sizeInWeekdays = Guards.period
 
 theorem C04_tie_get_subperiods (p : Period) (u : DUnit) :
     p.subperiods u = Guards.period_get_subperiods p u := by
-  unfold Period.subperiods Guards.period_get_subperiods
-  by_cases h : unitWeight p.unit < unitWeight u
-  · simp [h]
-  · cases u <;> simp [h, bind, Except.bind]
+  first
+  | rfl      -- the fall-back definition (function not translatable on this run) is the model function itself
+  | (unfold Period.subperiods Guards.period_get_subperiods
+     by_cases h : unitWeight p.unit < unitWeight u
+     · simp [h]
+     · cases u <;> simp [h, bind, Except.bind])
 
 -- non-vacuity: the generated functions compute something
 example : Guards.period_size_in_months ⟨.year, ⟨2020, 1, 1⟩, 2⟩ = .ok 24 := by
